@@ -31,6 +31,20 @@ def records_oracle(case, obs):
             continue
         if ri['task'] != t['slug']:
             return f'step {k}: run info of {op["name"]} names task {ri["task"]}'
+        # the config it came from: `<config name>/<task>`, the config name with its `#part` - the config of one of the chains
+        # of this history that hold this computation (whichever of them ran it)
+        if t.get('cfg'):
+            owners = set()
+            for s2 in steps:
+                if s2['op']['op'] in ('build', 'multi') and s2['out'] != 'error' and not isinstance(s2['out'], dict):
+                    body = s2['out'][1]
+                    for ch in ([body['chain']] if 'chain' in body else body.get('chains', [])):
+                        for t2 in (ch or {}).get('tasks', {}).values():
+                            if t2.get('slug') == t['slug'] and t2.get('key') == t['key'] and t2.get('cfg'):
+                                owners.add(t2['cfg'])
+            if str((ri.get('config') or {}).get('name', '')).split('/')[0] not in owners:
+                return (f'step {k}: run info of {op["name"]} names the config {ri.get("config")}; the chains that hold this computation '
+                        f'come from the configs {sorted(owners)}')
         log = ri['log']
         if log is not None:
             if not (isinstance(log, list) and len(log) == 2 and isinstance(log[0], dict) and set(log[0]) == {'inputs', 'run'}
@@ -139,6 +153,17 @@ class Records(Histories):
         tv['ops'] = [{'op': 'build', 'base': tv['base']}, {'op': 'value', 'chain': 0, 'pick': 2}] + \
                     [{'op': 'records', 'chain': 0, 'pick': k} for k in range(3)] + \
                     [{'op': 'force_chain', 'chain': 0, 'picks': [2], 'recompute': True, 'delete': False}, {'op': 'records', 'chain': 0, 'pick': 2}]
+        # parts of a multi-config file: named explicitly, chosen as the main part, used by another config
+        mp = []
+        for b, files in (({'file': 'multi.json#large'}, {}), ({'file': 'multi.json'}, {}),
+                         ({'name': 'top', 'data': {'uses': ['multi.json#small as s', 'multi.json as l']}}, {})):
+            one = dict(classes=[dict(K(0, 'Up', params=[P('a')]), name='up'), dict(K(1, 'Down', meta_inputs=[{'cls': 0}]), name='down')],
+                       files={'multi.json': {'configs': {'small': {'tasks': ['@M.*'], 'a': 1}, 'large': {'tasks': ['@M.*'], 'a': 2, 'main_part': True}}}},
+                       base=b, context=None)
+            n_tasks = 4 if 'data' in b else 2
+            one['ops'] = [{'op': 'build', 'base': b}] + [{'op': 'value', 'chain': 0, 'pick': k} for k in range(n_tasks)] + \
+                         [{'op': 'records', 'chain': 0, 'pick': k} for k in range(n_tasks)]
+            mp.append(one)
         # the same with equal settings: the two inputs are one computation, and still two inputs
         tw = dict(tv, context=None)
         # configurations of the chain-construction corpus marked for it (task classes derived from one another): every task
@@ -152,7 +177,7 @@ class Records(Histories):
                 c1['ops'] = [{'op': 'build', 'base': c0['base']}] + [{'op': 'value', 'chain': 0, 'pick': k} for k in range(n_tasks)] + \
                             [{'op': 'records', 'chain': 0, 'pick': k} for k in range(n_tasks)]
                 extra.append(c1)
-        return [c, m, r, q, n, tv, tw] + extra
+        return [c, m, r, q, n, tv, tw] + mp + extra
 
     def oracle(self, case, obs):
         return records_oracle(case, obs) or history_oracle(case, obs, self.checks)
@@ -554,9 +579,79 @@ class ResumableLogs(Suite):
         return repr(case)
 
 
+MUTATING_SRC = """
+from taskchain import Task, Parameter
+
+class Sorter(Task):             # run changes the values of its parameters in place
+    class Meta:
+        parameters = [Parameter('items'), Parameter('opts', default=None)]
+    def run(self, items, opts) -> dict:
+        first = items[0]
+        items.sort()
+        while len(items) > 1:
+            items.pop()
+        if opts is not None:
+            opts['seen'] = True
+        return {'first': first}
+"""
+
+
+class MutatedParameters(Suite):
+    """a task whose run sorts, pops and updates the values of its parameters in place: the record names the parameter
+    values the run was started with - those of the storage key and of the first log line -, on the first run, after a
+    forced recomputation and read from a new chain.  Runtime check only."""
+    name = 'parameters_changed_by_run'
+    model = ''
+
+    def gen(self, rng, tier):
+        return [dict(items=i, opts=o, hist=h) for i in ([3, 1, 2], [1], ['b', 'a']) for o in (None, {'k': [1]})
+                for h in ('once', 'forced', 'new_chain')]
+
+    def run_impl(self, case):
+        import copy, sys, types
+        from taskchain import Config
+        from .. import pipeline as pl
+        with pl.workspace(dict(classes=[], files={})) as (d, _):
+            name = 'tcv_mutating'
+            m = types.ModuleType(name)
+            sys.modules[name] = m
+            try:
+                exec(compile(MUTATING_SRC, name, 'exec'), m.__dict__)
+                data = lambda: {'tasks': [f'{name}.Sorter'], 'items': copy.deepcopy(case['items']), **({} if case['opts'] is None else {'opts': copy.deepcopy(case['opts'])})}
+                t = Config(Path('data'), name='c', data=data()).chain()['sorter']
+                text_before = t.params.repr
+                _ = t.value
+                if case['hist'] == 'forced':
+                    t = Config(Path('data'), name='c', data=data()).chain()['sorter']
+                    t.force()
+                    _ = t.value
+                if case['hist'] == 'new_chain':
+                    t = Config(Path('data'), name='c', data=data()).chain()['sorter']
+                ri = t.run_info or {}
+                started = [l for l in (t.log or []) if 'run started' in l]
+                return dict(recorded=ri.get('parameters'), text=text_before, started=started[-1:] )
+            finally:
+                sys.modules.pop(name, None)
+
+    def oracle(self, case, obs):
+        if 'unexpected_exception' in obs:
+            return f'unexpected exception {obs["unexpected_exception"]}: {obs["text"]}'
+        want = {'items': repr(case['items']), 'opts': repr(case['opts'])}
+        if obs['recorded'] != want:
+            return (f'{case}: the record names the parameters {obs["recorded"]}; the run was started with {want} '
+                    f'(key text {obs["text"]!r}, log line {obs["started"]})')
+        return None
+
+    def nontrivial(self, case, obs):
+        return True
+
+    def key(self, case):
+        return repr(case)
+
+
 class C18(Prop):
     pid = 'C18'
-    suites = [Records(), RunBodies(), NamedConfigs(), ResumableLogs()]
+    suites = [Records(), RunBodies(), NamedConfigs(), ResumableLogs(), MutatedParameters()]
     assumptions = ['timestamps, user name, library version, class and module names are abstracted away',
                    'the framing lines of the log (run started / run ended) are abstracted: the messages logged by run '
                    'are the tokens']
